@@ -150,6 +150,14 @@ CHECKS["C20"] = dict(
    note="Known finding: re-entrant same-topic publication reorders delivery (not repaired). Hooks (guarded, add-only, commit in MANIFEST.hooks) are used only to record launch_sim itself; everything else observes through the public API. Not covered: larger wirings beyond the random sample, set-up from inside callbacks, callbacks that raise. Built by a sub-task.",
 )
 
+CHECKS["C19"] = dict(
+   technique="TLA+ spec Expr.tla (expression grammar, exact rational evaluator pinned by eleven operator laws: fmod, IEEE remainder, min/max, comparisons, powers, roots, selection) model-checked by TLC over all trees up to depth 2 (+ sampled depth 3); every state replayed through sympy_to_casadi and casadi_to_sympy in both directions",
+   category="model_checking",
+   text="TLC enumerates every expression tree of the bounded grammar (27 k states quick, 658 k thorough) with small rational environments, evaluates it exactly and proves on each state the laws that characterise the operators independently of the evaluator's formulas. Each tree is converted by the real converters in both directions, with literal constants and with constants lifted to symbols, evaluated and compared two-sided at 1e-9 with the exact value (opaque transcendental nodes: with the source library's own value). User function maps with 1-3 entries in both dict orders, shared symbol tables (same name -> identical SX), the cse path and six matrix shapes are covered; constructs outside the grammar must raise. Vacuity guard per construct, direction and sign cell.",
+   design_ref="6/C19",
+   note="Lattice only (depth <= 2-3, fixed constants and evaluation points); ill-conditioned jump points between non-dyadic operands are skipped and counted. Built by a sub-task; six evaluator mutations caught by the TLC laws.",
+)
+
 NOT_YET = {}
 
 ALL = [f"C{i:02d}" for i in range(1, 21)]
